@@ -85,16 +85,32 @@ def run_case(ctx, rng, index, casedir):
     if million:
         nrec = 1_000_000 + rng.randint(5, 60)  # whole-genome GAFs have millions of records
         sit["files_gt_1000000_records"] += 1
-    walks = ggaf.make_walks(g, rng, nrec, maxlen=rng.choice([4, 12]) if not million else 2, forced=nrec >= 6)
+    # a compressed file of several MiB in which every multiple of 1 MiB of the decompressed stream falls
+    # exactly behind a record's line terminator (block-wise readers: blocks that end on a record end);
+    # 4.3 MiB on every change, 33 MiB in the thorough tier
+    aligned = index == 11
+    if aligned:
+        target = (4 << 20) + 300_000 if ctx.tier == "quick" else (33 << 20)
+        nrec = target // 400 + 50
+        sit["files_with_records_ending_on_MiB_boundaries"] += 1
+    walks = ggaf.make_walks(g, rng, nrec, maxlen=rng.choice([4, 12]) if not (million or aligned) else 2, forced=nrec >= 6)
     recs = [ggaf.make_record(g, rng, w, f"r{index}_{i}", offsets="canonical", tags=rng.choice(["safe", "grammar_plain"])) for i, w in enumerate(walks)]
     if len(recs) >= 100:
         sit["file_ge_100_records"] += 1
     mode = rng.choice(["plain", "bgzf", "pysam"])
+    u_lines = [r.line for r in recs]
+    if aligned:
+        mode = rng.choice(["bgzf", "pysam"])
+        u_lines, hits = ggaf.align_records([l for l in u_lines if len(l) < 1900], unit=1 << 20, min_len=400)
+        sit["record_ends_on_MiB_boundaries"] += hits
+        for r, l in zip(recs, u_lines):
+            r.line = l
+        recs = recs[:len(u_lines)]
     if mode != "plain":
         sit["bgzf_input"] += 1
     U = os.path.join(casedir, vary_name(rng, "U.gaf") + ("" if mode == "plain" else ".gz"))
-    ggaf.write_gaf(U, [r.line for r in recs], mode=mode, rng=rng, layout=rng.choice(["standard", "tiny", "line_start"]))
-    u_lines = [r.line for r in recs]
+    ggaf.write_gaf(U, u_lines, mode=mode, rng=rng, layout=rng.choice(["standard", "tiny", "line_start"]) if not aligned else "standard",
+                   **({"final_newline": True} if aligned else {}))
     u_recs = [rgaf.Rec(l) for l in u_lines]
     S, U2, S2 = (os.path.join(casedir, n) for n in ("S.gaf", "U2.gaf", "S2.gaf"))
     chain = [("U->S", U, S, "stable"), ("S->U'", S, U2, "unstable"), ("U'->S'", U2, S2, "stable")]
